@@ -48,6 +48,16 @@ def assign_ids(rng: random.Random, nodes: list[dict], edges: list[dict]) -> None
     comps = list(nx.weakly_connected_components(g))
     tids = rng.sample(range(1, 3 * len(segs) + 3), len(segs))
     lins = rng.sample(range(1, 3 * len(comps) + 3), len(comps))
+    # track ids beyond the range of narrow integer types (ids are never reused, a subset of a
+    # large project carries few but large ids)
+    if tids and rng.random() < 0.12:
+        off = rng.choice([250, 253, 65530, 70000])
+        tids = [t + off for t in tids]
+    # ids numbered from 0 are legitimate (other tools number tracks and lineages from 0)
+    if tids and rng.random() < 0.12:
+        tids[rng.randrange(len(tids))] = 0
+    if lins and rng.random() < 0.15:
+        lins[rng.randrange(len(lins))] = 0
     tid = {n: t for s, t in zip(segs, tids) for n in s}
     lin = {n: l for s, l in zip(comps, lins) for n in s}
     for x in nodes:
@@ -153,6 +163,8 @@ def gen_case(rng: random.Random, cfg: str | None = None, max_nodes: int = 8, fra
     spec["edges"] = edges
     if rng.random() < 0.2:
         spec["prebuilt"] = True   # constructed from a pre-built FeatureDict
+        if rng.random() < 0.35:
+            spec["prebuilt_no_lineage"] = True
     if rng.random() < 0.5:
         spec["w_unregistered"] = True   # the custom edge feature is registered later (or never)
     return spec
@@ -367,7 +379,10 @@ def gen_op(rng: random.Random, case: F.Case, tracks, kinds: list[str], always_re
         if kind == "enable":
             if rng.random() < 0.1:
                 keys.append(rng.choice([F.K_TID, F.K_LIN]))
-            return {"op": "enable", "keys": keys, "recompute": int(always_recompute or rng.random() < 0.85)}
+            rc = int(always_recompute or rng.random() < 0.85)
+            if getattr(tracks.features, "lineage_key", "x") is None:
+                rc = 1  # a registry built without the lineage feature has no values to "assume"
+            return {"op": "enable", "keys": keys, "recompute": rc}
         return {"op": "disable", "keys": [k for k in keys if k not in (F.K_TID, F.K_POS) or k == F.K_BOGUS] or [F.K_BOGUS]}
     if kind == "qnb":
         tid = rng.choice(tids) if tids and rng.random() < 0.85 else rng.randrange(1, 40)
